@@ -205,6 +205,10 @@ class MasterWorld:
 
     def start_master(self, first=False, cycle=True):
         """Body of Master.run_loop up to (and including) the first loop turn."""
+        # what the previous master had published (ZooKeeper truth for the
+        # start-up clauses of C08)
+        from mc.worlds import mastermon as _mm
+        self.records_before_start = sorted(_mm.placement_dump(self))
         m = self.new_master()
         self.undelivered = []
         m.load_model()
